@@ -15,7 +15,7 @@ from vf.sim.model import Model, atom_target, expand_out
 
 PROP_ID = 'C29'
 LEVEL = 'exploration'
-BUDGET = {'quick': 400, 'thorough': 10000}
+BUDGET = {'quick': 352, 'thorough': 10000}
 MANIFEST = {
     'engine': 'S',
     'technique': 'stateful PBT on the stepped scheduler: generated `cylc '
@@ -104,13 +104,32 @@ def _steps(ops, max_size):
                     .map(list), max_size=max_size)
 
 
+def _with_children(model: Model, insts):
+    """Instances some other instance depends on / that have prerequisites."""
+    parents, kids = set(), set()
+    valid = set(insts)
+    for (c, q) in insts:
+        for (u, tp, _o) in model.real_atoms(c, q):
+            if (u, tp) in valid:
+                parents.add((u, tp))
+                kids.add((c, q))
+    return sorted(parents), sorted(kids)
+
+
 @st.composite
-def set_steps(draw):
-    n = draw(st.integers(0, 23))
+def set_steps(draw, parents, kids):
     mode = draw(st.sampled_from(
         ['default', 'default', 'out', 'out', 'out', 'out', 'pre-all',
-         'pre', 'pre', 'pre']))
+         'pre-all', 'pre', 'pre', 'pre']))
+    n = draw(st.integers(0, 23))
+    # bias the target towards instances the command can have an effect on
+    pool = kids if mode.startswith('pre') else parents
+    if pool and draw(st.integers(0, 3)) != 0:
+        n = list(draw(st.sampled_from(pool)))
     payload = draw(st.lists(st.integers(0, 60), min_size=1, max_size=3))
+    if mode == 'pre' and draw(st.integers(0, 2)) == 0:
+        # only prerequisites of other tasks / unknown ones
+        payload = [3 * (k // 3) for k in payload]
     return ['xset', n, mode, payload, draw(st.sampled_from(FLOWS))]
 
 
@@ -122,32 +141,40 @@ def cases(draw):
     if draw(st.integers(0, 2)) == 0:
         ex['runahead'] = 'P%d' % draw(st.sampled_from([0, 1, 2]))
     # explicit completion: required custom outputs and optional success
+    # (the task is made success-optional: rendering takes "?" from `opt`)
     comp = {}
-    used = _used_customs(spec)
-    for t in spec['tasks']:
+    cands = [t for t in spec['tasks']
+             if any('-' not in x for x in spec['custom'].get(t, {}))
+             and all('-' not in x for x in spec['custom'].get(t, {}))]
+    if cands and draw(st.integers(0, 2)) == 0:
+        t = draw(st.sampled_from(cands))
         o = spec['opt'][t]
-        req = sorted(x for x in used.get(t, ())
-                     if not o['custom'].get(x) and '-' not in x)
-        bad = [x for x in used.get(t, ()) if '-' in x]
-        if o['succ'] and req and not bad and draw(st.integers(0, 1)) == 0:
-            comp[t] = ' and '.join(req) + ' and (succeeded or failed)'
+        o['succ'] = True
+        req = sorted(spec['custom'][t])
+        for x in req:
+            o['custom'][x] = False
+        comp[t] = ' and '.join(req) + ' and (succeeded or failed)'
     if comp:
         ex['completion'] = comp
     outcomes = draw(outcome_maps(spec))
-    sched = draw(_steps(PRE_OPS, 24))
+    model = Model(spec)
+    parents, kids = _with_children(model, model.instances())
     kind = draw(st.sampled_from(['set', 'set', 'set', 'set', 'set', 'set',
                                  'set', 'diff', 'diff', 'diff']))
     case = {'spec': spec, 'outcomes': outcomes, 'kind': kind}
     if kind == 'set':
-        sched.append(draw(set_steps()))
+        sched = draw(_steps(PRE_OPS, 24))
+        sched.append(draw(set_steps(parents, kids)))
         if draw(st.integers(0, 2)) == 0:
             sched += draw(_steps(MID_OPS, 8))
-            sched.append(draw(set_steps()))
+            sched.append(draw(set_steps(parents, kids)))
         sched += draw(_steps(MID_OPS, 5))
         if draw(st.booleans()):
             sched.append(['resume', 0])
     else:
-        case['target'] = draw(st.integers(0, 23))
+        sched = draw(_steps(PRE_OPS, 7))
+        case['target'] = (list(draw(st.sampled_from(parents))) if parents
+                          else draw(st.integers(0, 23)))
     case['schedule'] = sched
     return case
 
@@ -330,13 +357,21 @@ def _resolve(ast: Ast, sc: SCase, t: str, p: int, mode: str, payload):
     return None, pres
 
 
+def _target(drv, n) -> Optional[str]:
+    """int: Driver.pick (even = pooled task, odd = any model instance);
+    [task, point]: that model instance."""
+    if isinstance(n, list):
+        return f'{drv.to_str[n[1]]}/{n[0]}'
+    return drv.pick(n)
+
+
 async def _xset(sc: SCase, step, ast: Ast):
     from cylc.flow import commands
     _op, n, mode, payload, flow = step
     sim, drv = sc.sim, sc.drv
     if not sim.running:
         return
-    id_ = drv.pick(n)
+    id_ = _target(drv, n)
     if not id_:
         return
     cyc, name = id_.split('/', 1)
@@ -380,12 +415,15 @@ async def _check_set(case, ctx: Ctx) -> CaseResult:
             return CaseResult(sc.crash_violations(PROP_ID), False,
                               ['rejected:' + sc.rejected])
         sim = sc.sim
+        watch_outputs(sim, spec)
         ast = Ast(spec, sc.model, sc.drv.to_str)
         await run_prefix(sc, case['schedule'], ast)
         await sc.drain()
         final_pool, paused_end = _final_pool(sim)
         viol = sc.crash_violations(PROP_ID)
         classes: Set[str] = {'kind:set'}
+        if spec['extra'].get('completion'):
+            classes.add('explicit-completion-expression')
         nontrivial = _oracle_set(sc, ast, final_pool, paused_end,
                                  bool(viol), viol, classes)
         uniq = {}
@@ -437,7 +475,11 @@ def _oracle_set(sc: SCase, ast: Ast, final_pool, paused_end, crashed, viol,
             classes.add('ignored:flow-none-on-active-task')
             continue
         outs_b, outs_a = set(ev['outs_before']), set(ev['outs_after'])
-        new = outs_a - outs_b
+        # outputs the command completed on the (possibly transient) proxy:
+        # flow-specific, unlike the before/after union over all flows
+        new = {e['out'] for e in trace[ev['n0']:idx]
+               if e['k'] == 'out' and e['cycle'] == cyc and e['name'] == name}
+        new |= outs_a - outs_b
         added = sorted(set(after) - set(before))
         has_flow = bool(fl != ['none'] and (b is None or b['flows']))
 
@@ -473,13 +515,24 @@ def _oracle_set(sc: SCase, ast: Ast, final_pool, paused_end, crashed, viol,
             if missing:
                 if mode == 'default':
                     sig = 'C29:default-selection-incomplete'
-                    if ast.success_optional(name) and (
-                            ast.required(name) - {'succeeded', 'failed'}):
+                    # root cause apart: explicit completion expression
+                    # "<outputs> and (succeeded or failed)"; only the
+                    # success pathway is missing
+                    if (name in (spec['extra'].get('completion') or {})
+                            and missing <= {'submitted', 'started',
+                                            'succeeded'}):
                         sig += ':required-output-and-optional-success'
                 else:
                     sig = ('C29:implied-output-not-completed'
                            if not (missing & asked) else
                            'C29:selected-output-not-completed')
+                    if missing == {'submit-failed'}:
+                        sig += ':submit-failed'
+                    elif b is None and missing <= new:
+                        # completed on the transient proxy, lost on the way
+                        # to the task_outputs table
+                        sig += ':not-recorded-in-db'
+                    classes.add('out:selected-missing')
                 viol.append(Violation(
                     sig,
                     f'cylc set {"(no options)" if mode == "default" else ev["outputs"]} '
@@ -496,7 +549,9 @@ def _oracle_set(sc: SCase, ast: Ast, final_pool, paused_end, crashed, viol,
                     f'{sorted(outs_b)}, after {sorted(outs_a)})'))
             # (O2) children of the newly completed outputs
             kids_new: Set[Tuple[str, int]] = set()
-            for o in sorted(new):
+            if not has_flow:
+                classes.add('children-not-checked:no-flow')
+            for o in sorted(new if has_flow else ()):
                 for (c, q) in sorted(ast.children.get((name, p, o), ())):
                     kids_new.add((c, q))
                     cid = f'{to_str[q]}/{c}'
@@ -514,12 +569,14 @@ def _oracle_set(sc: SCase, ast: Ast, final_pool, paused_end, crashed, viol,
                                 f'{cid} is in the pool but {key} is '
                                 f'{ca["sat"].get(key)!r} (sat {ca["sat"]})'))
                         continue
+                    # has been in the pool, or was completed by an earlier
+                    # `cylc set` as an inactive task (history in the DB)
                     seen = any(
-                        e['k'] in ('add', 'launch') and e['cycle'] == to_str[q]
-                        and e['name'] == c for e in trace[:idx])
-                    if not has_flow:
-                        classes.add('child-not-spawned:no-flow')
-                    elif seen:
+                        (e['k'] in ('add', 'launch')
+                         and e['cycle'] == to_str[q] and e['name'] == c)
+                        or (e['k'] == 'cmd' and e.get('target') == cid)
+                        for e in trace[:idx])
+                    if seen:
                         classes.add('child-not-spawned:seen-before')
                     else:
                         viol.append(Violation(
@@ -680,7 +737,7 @@ async def _diff_side(case, ctx, side: str, target_id: Optional[str]):
         if not sim.running:
             return {'skip': 'stopped', 'crash': sc.crash_violations(PROP_ID)}
         await commands.run_cmd(commands.pause(sim.schd))
-        id_ = target_id or drv.pick(case['target'])
+        id_ = target_id or _target(drv, case['target'])
         if not id_:
             return {'skip': 'no-target', 'crash': []}
         cyc, name = id_.split('/', 1)
